@@ -89,4 +89,3 @@ func shortFile(f string) string {
 	return f
 }
 
-func cmdSelftest(args []string) int { return 2 }
